@@ -2,6 +2,7 @@
 //! WOFF / Type 2 specifications. This crate must never depend on allsorts.
 
 pub mod be;
+pub mod bitmapenc;
 pub mod cffenc;
 pub mod cmapenc;
 pub mod glyfenc;
